@@ -304,7 +304,8 @@ def bodies(depth=2, edepth=2, max_stmts=5):
 # -- layout --------------------------------------------------------------------------------------------------
 
 GAPS = ['', '', ' ', ' ', ' ', '  ', '\t', '\n', '\n    ', ' \r\n', '\r', '\n\n', '\r\n\r\n', '\r\n \r\n\t', '\n\r\n', ' /* c */ ', '/**/', '/* a * b / c\n ** */',
-        '// line comment\n', '//\n', '/* "q" \'t\' */', '// end if; x = 1\n', '/*\n\n*/']
+        '// line comment\n', '//\n', '/* "q" \'t\' */', '// end if; x = 1\n', '/*\n\n*/',
+        '/***/', '/****/', '/* boxed **/', '/*** b * ***/', '/* /* x **/', '/*/ */']
 END_GAPS = [' ', '  ', '\t', '\n', ' \n  ', '\r\n', '\t \t', '\r\n\r\n']
 PLAIN = [' ']
 
